@@ -385,6 +385,8 @@ impl Span {
             let ok = if other >= 0 { ctx.prog.ops[other as usize].kind.name() } else { "?" };
             let detail = format!("op {} ({}) entered object {} while op {} ({}) was still inside (occupancy {}); runner ctx {}", op, def.kind.name(), def.obj, other, ok, before, ctx_code());
             ctx.report("C01", "overlap_at_enter", format!("overlap:{}+{}", def.kind.name(), ok), detail.clone());
+            // two bodies inside one value at once each hold the `&mut` they were given: aliasing mutable borrows in safe client code
+            ctx.report("C14", "two_operations_hold_the_value_mutably_at_once", format!("overlap:{}+{}", def.kind.name(), ok), detail.clone());
             // the same fact breaks the exclusivity clause of the more specific properties
             let other_kind = if other >= 0 { Some(ctx.prog.ops[other as usize].kind) } else { None };
             for k in [Some(def.kind), other_kind].into_iter().flatten() {
@@ -786,6 +788,7 @@ pub fn run_thread(ctx: &Arc<RunCtx>, acts: Vec<TAct>, mortal: Option<Arc<Obj>>) 
             TAct::DropStream(p) => { crate::pipes::drop_stream(ctx, &mut tls, p); ctx.note_for_firer(); }
             TAct::Push(p) => crate::pipes::push_item(ctx, p),
             TAct::Attempt(kind, obj) => attempt(ctx, kind, obj),
+            TAct::FireStashedWakers => { let ws: Vec<Waker> = ctx.stashed_wakers.lock().unwrap().clone(); for w in ws { w.wake_by_ref(); } }
             TAct::Checkpoint => { if let Some(h) = ctx.prog.checkpoint_hold { let _b = ctx.blocked(NO_OP, PH_HOLD); ctx.progress(); ctx.holds[h].wait(); } }
             TAct::WaitStart(op) => {
                 let _b = ctx.blocked(op, PH_FIREWAIT);
